@@ -10,6 +10,9 @@ E = {
  "C13": ("Partition theorem for every thread-slicing loop of the library, for all row and thread counts, proved over loops REGENERATED from the C source on each run (T-leaf) via per-site equivalence lemmas to two canonical forms; disjoint per-row writes commute (any interleaving at row granularity = sequential); the regenerated condensed index (size_t wrap explicit) is injective, in range and symmetric for n < 2^32. Exhaustive sweep rows 0..40 x threads 1..24 on implementation and model.",
          TB + "T-leaf translator (clang JSON AST -> Gallina; ceil((double)a/(double)b) read as ceiling division), pthread fork/join modelled at row-step granularity; metric axioms (triangle inequality etc.) checked numerically, not yet proved.",
          "Coq proofs over source-regenerated integer model (translator) + exhaustive implementation sweep + binary64 distance correspondence"),
+ "C06": ("For ALL worker scripts, worker counts and interleavings of their random-number calls: with thread-local generator state every finished worker has drawn exactly its sequential stream (theorem, by an invariant over schedule steps); with shared state a concrete schedule refutes it (theorem by vm_compute). Decision form over the STORAGE CLASS and the generator functions regenerated from numeric.c each run; the schedule model is replayed on the library through the RNG yield hook for every interleaving of 2-3 small workers, and the group generator / bootstrap CV are run under imposed and OS schedules.",
+         TB + "T-leaf translator (RNG functions, storage class from clang's VarDecl.tls), atomicity of one RNG call (hook at call entry); word tearing, compiler reordering and C11 data-race UB not modelled (partial: hardware-level races).",
+         "Coq invariant proof over all schedules on a source-regenerated RNG model + exhaustive small-schedule replay through a yield hook"),
  "C20": ("Decision procedure over struct/prototype tables REGENERATED from src/*.h (clang AST) and the ctypes declarations (Python ast) on each run; proved sound (ok=true -> same field names/order/types, same LP64 layout, same arity/parameter kinds/return kind for every declaration) and complete (ok=false -> listed declarations really disagree); the kernel evaluates ok on the current tree. Layout function validated against gcc offsetof/sizeof for every C struct.",
          TB + "T-abi translator, LP64 System V layout model (validated per run against the compiler), ctypes default restype=c_int.",
          "Coq-verified decision procedure over source-regenerated ABI tables (translator), evaluated by vm_compute"),
